@@ -213,7 +213,18 @@ def rule_table(ctx):
       okS = False
       why = "table is not keyed by the x-coordinate of high[i] + low[j]"
   exits = any(kind in ("break", "return") for info in w.loop_info.values() for kind, _, _, _, _ in info["body_paths"])
-  ctx.record(R, f.where, "res[x(i*m*base + j*base)] = i*m + j for every (i, j)", okS and not exits, why or "nested loops without exits")
+  # every (i, j) iteration stores exactly one entry (a conditional store would leave holes, e.g. the point at infinity at index 0)
+  inner = [i for i in w.loop_info.values() if "BatchAddX" in repr(as_poly(i["iter"]))]
+  for info in inner:
+    for kind, val, s_, since, vis in info["body_paths"]:
+      n_st = len([1 for i_ in s_.trace[since:] if w.events[i_].kind == "store"])
+      if n_st != 1:
+        okS = False
+        why = "an (i, j) iteration stores %d table entries (a skipped entry leaves a hole in [0, N))" % n_st
+  if not inner:
+    okS = False
+    why = "no loop over BatchAddX(high[i], low)"
+  ctx.record(R, f.where, "res[x(i*m*base + j*base)] = i*m + j for every (i, j)", okS and not exits, why or "nested loops without exits, one store per (i, j)")
   # PointSequence
   f, w = walk(repo, "PointSequence")
   base, k = P("param", "base"), P("param", "n")
